@@ -171,10 +171,11 @@ class InjectionTracker:
             raise ValueError(f"No original ID for injected packet {effective_id}!")
 
         new_id = effective_id
-        for packet_id in reversed(self.injections):
-            if packet_id > new_id:
-                break
-            new_id -= 1
+        # Every injection below this ID shifted it up by one, no matter
+        # how many newer injections came after it.
+        for packet_id in self.injections:
+            if packet_id < effective_id:
+                new_id -= 1
         new_id -= self._injection_base
         if effective_id != new_id:
             logging.debug("Orig corrected %d -> %d" % (effective_id, new_id))
